@@ -323,17 +323,22 @@ def _w_sexp(res, p):
     amps = [ST.complex_var(f"a{i}") for i in range(N)]
     names = [f"a{i}_{s}" for i in range(N) for s in ("re", "im")]
     op = op_from(p["terms"])
-    cm = {k: complex(v) for k, v in _merge(op).items()}
-    if p["reverse"]:
-        cm = {frozenset((n - 1 - q, l) for q, l in k): c for k, c in cm.items()}
-    Mop = PL.dense(cm, n)
-    want = 0
-    for i in range(N):
-        for j in range(N):
-            e = Mop[i, j]
-            if e != 0:
-                want = want + amps[i].conjugate() * (e.real if e.imag == 0 else complex(e)) * amps[j]
-    want = ST.CV.lift(want)
+    flags = p.get("flags") or [p["reverse"]]  # a history: the SAME operator object queried with these flags in turn
+
+    def quad(reverse):
+        cm = {k: complex(v) for k, v in _merge(op).items()}
+        if reverse:
+            cm = {frozenset((n - 1 - q, l) for q, l in k): c for k, c in cm.items()}
+        Mop = PL.dense(cm, n)
+        w = 0
+        for i in range(N):
+            for j in range(N):
+                e = Mop[i, j]
+                if e != 0:
+                    w = w + amps[i].conjugate() * (e.real if e.imag == 0 else complex(e)) * amps[j]
+        return ST.CV.lift(w)
+
+    wants = [quad(f) for f in flags]
     norm2 = sum((ST.zr_real(a.re) * ST.zr_real(a.re) + ST.zr_real(a.im) * ST.zr_real(a.im)) for a in amps)
     real_gso = SP.get_sparse_operator
     mode = p["mode"]
@@ -345,26 +350,27 @@ def _w_sexp(res, p):
         if mode == "wf":
             with ST.patched((WF, "np", ST.NpProxy(numpy)), (WF, "float", ST.float_shadow), (WF, "complex", ST.complex_shadow), (OU, "get_sparse_operator", lambda *a, **k: _DenseOp(real_gso(*a, **k)))):
                 wf = WF.Wavefunction(list(amps))
-                return OU.get_expectation_value(op, wf, reverse_operator=p["reverse"]) if p["reverse"] else OU.get_expectation_value(op, wf)
+                return [OU.get_expectation_value(op, wf, reverse_operator=True) if f else OU.get_expectation_value(op, wf) for f in flags]
         st = np.empty(N, dtype=object)
         for i, a in enumerate(amps):
             st[i] = a
         if mode == "col":
             st = st.reshape(-1, 1)
-        return SP.expectation(_DenseOp(real_gso(op, n)), st)
+        return [SP.expectation(_DenseOp(real_gso(op, n)), st)]
 
     records = []
 
     def fn2(e):
-        got = fn(e)
-        try:
-            d = ST.CV.lift(got - want)
-        except Exception as err:
-            records.append(("type", f"result of type {type(got).__name__} is not a symbolic scalar: {err}", None))
-            return got
-        claim = z3.And(ST.zr_real(d.re) == 0, ST.zr_real(d.im) == 0)
-        records.append(e.prove(claim))
-        return got
+        gots = fn(e)
+        for got, want in zip(gots, wants):
+            try:
+                d = ST.CV.lift(got - want)
+            except Exception as err:
+                records.append(("type", f"result of type {type(got).__name__} is not a symbolic scalar: {err}", None))
+                continue
+            claim = z3.And(ST.zr_real(d.re) == 0, ST.zr_real(d.im) == 0)
+            records.append(e.prove(claim))
+        return gots
 
     outs = ex.run(fn2)
     res.d["paths"] += ex.npaths
@@ -585,6 +591,9 @@ def instances(tier, seed):
             if n == 3 and mode == "col":
                 continue
             items.append(("sexp", {"terms": terms, "n": n, "mode": mode, "reverse": reverse, "label": f"symbolic-state expectation {terms} n={n} mode={mode} reverse={reverse}"}))
+    for terms, n in [([[_ops({0: "Z"}), 1.0]], 2), ([[_ops({0: "X", 1: "Z"}), [0.0, 1.0]], [_ops({1: "Y"}), 0.5]], 2)] + ([([[_ops({0: "Z"}), 1.0]], 3)] if tier == "thorough" else []):
+        for flags in ([False, True], [True, False], [False, False, True]):
+            items.append(("sexp", {"terms": terms, "n": n, "mode": "wf", "reverse": False, "flags": flags, "label": f"symbolic-state expectation, one operator object queried with reverse flags {flags}: {terms} n={n}"}))
     # ground: coefficient/label vectors -> operator
     for k, (coeffs, labels) in enumerate([
         ([0.1, -0.4], [[1, 1, 0, 0], [2, 2, 3, 3]]),
@@ -653,6 +662,16 @@ def replay(data):
             if p["reverse"]:
                 cm = {frozenset((n - 1 - q, l) for q, l in k): c for k, c in cm.items()}
             want = v.conj() @ PL.dense(cm, n) @ v
+            if p.get("flags"):
+                worst = 0.0
+                for f in p["flags"]:
+                    cmf = {k: complex(c) for k, c in _merge(op).items()}
+                    if f:
+                        cmf = {frozenset((n - 1 - q, l) for q, l in k): c for k, c in cmf.items()}
+                    w = v.conj() @ PL.dense(cmf, n) @ v
+                    g = get_expectation_value(op, Wavefunction(v), reverse_operator=True) if f else get_expectation_value(op, Wavefunction(v))
+                    worst = max(worst, abs(complex(g) - w) / max(1.0, abs(w)))
+                return worst > 1e-9, f"same operator object queried with reverse flags {p['flags']}: worst deviation from the quadratic form {worst:.3g}"
             try:
                 if p["mode"] == "wf":
                     got = get_expectation_value(op, Wavefunction(v), reverse_operator=True) if p["reverse"] else get_expectation_value(op, Wavefunction(v))
